@@ -493,7 +493,7 @@ def r03_5(ctx):
             ctx.ok((short, 'check_len-first'), sample=dict(parser=short, used_by=users[0][0].rsplit('::', 1)[-1]))
 
 
-@rule('R03.6', ['C03'], floor=2, clause='SLAAC builds a CIDR (which asserts prefix_len <= 128) only from prefix information that passed is_valid_prefix_info(), and that test bounds the prefix length')
+@rule('R03.6', ['C03'], floor=3, clause='SLAAC builds a CIDR (which asserts prefix_len <= 128) only from prefix information that passed is_valid_prefix_info(), and that test bounds the prefix length')
 def r03_6(ctx):
     F = ctx.F
     SL = 'iface::slaac::Slaac'
@@ -533,6 +533,13 @@ def r03_6(ctx):
                 "Ipv6Cidr::new on a crafted router advertisement", body=v, bb=bad[0][0])
     else:
         ctx.ok(('is_valid_prefix_info', 'prefix_len<=128'), sample=dict(fn='is_valid_prefix_info', clause='prefix_len <= 128'))
+    notmc = lambda f: f[0] == 'bool' and f[2] is False and is_call(strip(f[1]), 'is_multicast')
+    bad = unguarded(F, v, trues, notmc)
+    if bad:
+        ctx.bad("is_valid_prefix_info|multicast-prefix", "is_valid_prefix_info() can return true for a multicast prefix: SLAAC then configures a "
+                "multicast interface address and Interface::poll panics in its address check", body=v, bb=bad[0][0])
+    else:
+        ctx.ok(('is_valid_prefix_info', 'not-multicast'), sample=dict(fn='is_valid_prefix_info', clause='!prefix.is_multicast()'))
 
 
 @rule('R09.8', ['C09'], floor=3, clause='closing a UDP socket clears its endpoint and resets both packet queues: a datagram accepted under one binding is never transmitted under another (or from port 0)')
